@@ -36,3 +36,244 @@ Proof.
     destruct (sr_updates_only r); [discriminate|].
     destruct (process_subscription r); congruence.
 Qed.
+
+(** * Entry point 1: ingest *)
+From Gnmi Require Import CTree.CTreeProofs CTree.CTreeTheorems Value.ValueProofs.
+
+(** what every stored notification satisfies: it carries at least one update
+    (it went through gnmiUpdate) and wire-realisable values *)
+Definition stored_ok (n : notif) : Prop := n_upd n <> [] /\ wire_notif n = true.
+
+Definition tree_ok (tr : tree notif) : Prop :=
+  wf_tree tr /\ forall p n, lookup tr p = Some n -> stored_ok n.
+
+(** well-formed cache states: no target registered under the empty name,
+    well-formed trees of stored notifications *)
+Definition st_wf (c : cstate) : Prop :=
+  forall k t, In (k, t) c -> k <> "" /\ tree_ok (ts_tree t).
+
+Lemma tree_ok_empty : tree_ok None.
+Proof. split; [exact I|]. intros p n H; discriminate. Qed.
+
+Lemma st_wf_new names : ~ In "" names -> st_wf (new_cstate names).
+Proof.
+  unfold new_cstate. intros Hn.
+  assert (H : forall l c, st_wf c -> ~ In "" l -> st_wf (fold_left (fun m k => aset k new_tstate m) l c)).
+  { induction l as [|k l IH]; cbn; intros c Hc Hl; [assumption|].
+    apply IH; [|tauto]. intros k' t' Hin. apply In_aset_weak in Hin as [E|Hin]; [|now apply Hc].
+    inversion E; subst. split; [intros ->; apply Hl; now left|apply tree_ok_empty]. }
+  apply H; [intros k t []|assumption].
+Qed.
+
+Lemma wire_tv_cases v : wire_tv v = true -> v = TVnil \/ has_nil v = false.
+Proof. destruct v; cbn; intros H; auto; right; try reflexivity; now apply negb_true_iff in H. Qed.
+
+(** value.Equal panics only on (double, nil) and only while DEFECT C19_1 is present *)
+Lemma equal_gen_panic_inv d a b w :
+  wire_tv a = true -> wire_tv b = true -> equal_gen d a b = Panic w ->
+  d = true /\ (exists x, a = TVDouble x) /\ b = TVnil.
+Proof.
+  intros Ha Hb He.
+  destruct (wire_tv_cases _ Hb) as [->|Hnb].
+  - destruct a; cbn in He; try discriminate; destruct d; cbn in *; try discriminate; eauto.
+  - destruct (wire_tv_cases _ Ha) as [->|Hna]; [cbn in He; discriminate|].
+    destruct (equal_gen_total d a b) as [r Hr]; [right; auto|congruence].
+Qed.
+
+Section IngestProofs.
+Variable fl : flags.
+
+Definition unit_path (n : notif) : option gpath :=
+  match n_upd n with u :: _ => if n_atomic n then None else u_path u | [] => None end.
+Definition unit_val (n : notif) : tv :=
+  match n_upd n with u :: _ => u_val u | [] => TVnil end.
+
+(** why a unit (one stored notification) can panic: always one of the listed defects *)
+Definition attrib1 (n : notif) (w : N) : Prop :=
+  (f_idx fl = true /\ (w = panic_path0 \/ w = panic_path1) /\ short_idx (idx_of n (unit_path n)) = true) \/
+  (f_nilval fl = true /\ w = panic_nil_val /\ unit_val n = TVnil /\
+   typed_meta_idx (idx_of n (unit_path n)) = true) \/
+  (f_equal fl = true /\ w = panic_equal /\ n_atomic n = false /\ unit_val n = TVnil).
+
+Lemma join_path_ok pr ph :
+  gp_target pr <> "" -> exists p, join_path (Some pr) ph = Ok p.
+Proof.
+  intros Ht. unfold join_path, join_prefix_and_path, to_strings at 1. cbn [gp_of_opt].
+  unfold nonempty at 1. destruct (String.eqb_spec (gp_target pr) ""); [contradiction|].
+  cbn. eauto.
+Qed.
+
+Lemma meta_check_panic t p k v t' w :
+  meta_check fl t p k v = (t', Panic w) ->
+  f_nilval fl = true /\ w = panic_nil_val /\ v = TVnil /\ name_in k typed_meta_names = true.
+Proof.
+  unfold meta_check, typed_meta_names, name_in. cbn [existsb].
+  destruct (String.eqb k md_sync) eqn:E1; cbn [orb].
+  - destruct v; try (intros H; discriminate H).
+    destruct (f_nilval fl); intros H; inversion H; subst. auto.
+  - destruct (String.eqb k md_connected) eqn:E2; cbn [orb].
+    + destruct v; try (intros H; discriminate H).
+      destruct (f_nilval fl); intros H; inversion H; subst. auto.
+    + destruct (String.eqb k md_connected_addr) eqn:E3; cbn [orb].
+      * destruct v; try (intros H; discriminate H).
+        destruct (f_nilval fl); intros H; inversion H; subst. auto.
+      * destruct (String.eqb k md_connect_error) eqn:E4; cbn [orb].
+        -- destruct v; try (intros H; discriminate H).
+           destruct (f_nilval fl); intros H; inversion H; subst. auto.
+        -- destruct (negb (f_intmeta fl) && Nat.eqb (List.length p) 2 && existsb (String.eqb k) md_int_names);
+             [destruct v|]; intros H; discriminate H.
+Qed.
+
+Lemma meta_check_tree t p k v : ts_tree (fst (meta_check fl t p k v)) = ts_tree t.
+Proof.
+  unfold meta_check.
+  repeat match goal with
+         | |- context [if ?b then _ else _] => destruct b
+         | |- context [match v with _ => _ end] => destruct v
+         end; reflexivity.
+Qed.
+
+Lemma update_pre_tree t p v : ts_tree (fst (update_pre fl t p v)) = ts_tree t.
+Proof.
+  unfold update_pre. destruct p as [|p0 [|k r]]; cbn.
+  - destruct (f_idx fl); reflexivity.
+  - destruct (negb (String.eqb p0 md_root)); [reflexivity|destruct (f_idx fl); reflexivity].
+  - destruct (negb (String.eqb p0 md_root)); [reflexivity|apply meta_check_tree].
+Qed.
+
+Lemma update_pre_panic t p v t' w :
+  update_pre fl t p v = (t', Panic w) ->
+  (f_idx fl = true /\ (w = panic_path0 \/ w = panic_path1) /\ short_idx (Some p) = true) \/
+  (f_nilval fl = true /\ w = panic_nil_val /\ v = TVnil /\ typed_meta_idx (Some p) = true).
+Proof.
+  unfold update_pre. destruct p as [|p0 [|k r]].
+  - destruct (f_idx fl); intros H; inversion H; subst. left. cbn. auto.
+  - destruct (String.eqb p0 md_root) eqn:E; cbn [negb]; [|intros H; discriminate H].
+    destruct (f_idx fl); intros H; inversion H; subst. left. cbn. rewrite E. auto.
+  - destruct (String.eqb p0 md_root) eqn:E; cbn [negb]; [|intros H; discriminate H].
+    intros H. apply meta_check_panic in H as (H1 & H2 & H3 & H4). right.
+    unfold typed_meta_idx. rewrite E, H4. auto.
+Qed.
+
+Lemma update_leaf_panic t p v n t' w :
+  tree_ok (ts_tree t) -> wire_tv v = true ->
+  update_leaf fl t p v n = (t', Panic w) ->
+  f_equal fl = true /\ w = panic_equal /\ n_atomic n = false /\ v = TVnil.
+Proof.
+  intros [Hwf Hok] Hv. unfold update_leaf.
+  destruct (get (ts_tree t) p) as [[old|cs]|] eqn:Eg; [| intros H; discriminate H |].
+  - apply get_leaf_exact in Eg. destruct (Hok _ _ Eg) as [Hne Hw].
+    destruct (Z.ltb (n_ts n) (n_ts old)); [intros H; discriminate H|].
+    destruct (Z.eqb (n_ts n) (n_ts old) && notif_eqb old n); [intros H; discriminate H|].
+    destruct (n_atomic n); [intros H; discriminate H|].
+    destruct (n_upd old) as [|uo rest] eqn:Eo; [congruence|].
+    destruct (equal_gen (f_equal fl) (u_val uo) v) eqn:Ee; try (intros H; discriminate H).
+    intros H; inversion H; subst.
+    unfold wire_notif in Hw. rewrite Eo in Hw. cbn in Hw. apply andb_true_iff in Hw as [Hw _].
+    destruct (equal_gen_panic_inv _ _ _ _ Hw Hv Ee) as (H1 & _ & H3). auto.
+  - destruct (add (ts_tree t) p n); intros H; discriminate H.
+Qed.
+
+Lemma gnmi_update1_panic t n t' w k :
+  tree_ok (ts_tree t) -> wire_notif n = true ->
+  (exists pr, n_prefix n = Some pr /\ gp_target pr = k) -> k <> "" ->
+  gnmi_update1 fl t n = (t', Panic w) ->
+  n_upd n <> [] -> attrib1 n w.
+Proof.
+  intros Hok Hw (pr & Hpr & Hk) Hne. unfold gnmi_update1, attrib1, unit_path, unit_val, idx_of.
+  destruct (n_upd n) as [|u us] eqn:Eu; [congruence|]. intros H _.
+  rewrite Hpr in *. subst k.
+  destruct (join_path_ok pr (if n_atomic n then None else u_path u) Hne) as [p Hp].
+  rewrite Hp in *.
+  destruct (update_pre fl t p (u_val u)) as [t1 [x|e|w1]] eqn:Ep.
+  - assert (Ht1 : tree_ok (ts_tree t1)).
+    { replace t1 with (fst (update_pre fl t p (u_val u))) by now rewrite Ep.
+      now rewrite update_pre_tree. }
+    unfold wire_notif in Hw. rewrite Eu in Hw. cbn in Hw. apply andb_true_iff in Hw as [Hw _].
+    apply update_leaf_panic in H as (H1 & H2 & H3 & H4); auto.
+    right; right. auto.
+  - discriminate H.
+  - inversion H; subst. apply update_pre_panic in Ep as [(H1 & H2 & H3)|(H1 & H2 & H3 & H4)].
+    + left. auto.
+    + right; left. auto.
+Qed.
+
+Lemma gnmi_remove_panic t n t' w k :
+  (exists pr, n_prefix n = Some pr /\ gp_target pr = k) -> k <> "" ->
+  gnmi_remove fl t n = (t', Panic w) -> n_del n <> [] ->
+  f_idx fl = true /\ (w = panic_path0 \/ w = panic_path1) /\
+  exists d rest, n_del n = d :: rest /\ short_idx (idx_of n (Some d)) = true.
+Proof.
+  intros (pr & Hpr & Hk) Hne. unfold gnmi_remove, idx_of.
+  destruct (n_del n) as [|d ds] eqn:Ed; [congruence|]. intros H _.
+  rewrite Hpr in *. subst k.
+  destruct (join_path_ok pr (Some d) Hne) as [p Hp]. rewrite Hp in *.
+  destruct p as [|p0 [|k r]].
+  - destruct (f_idx fl); [|discriminate H]. inversion H; subst.
+    split; [reflexivity|]. split; [auto|]. exists d, ds. auto.
+  - destruct (String.eqb p0 md_root) eqn:E; [|discriminate H].
+    destruct (f_idx fl); [|discriminate H]. inversion H; subst.
+    split; [reflexivity|]. split; [auto|]. exists d, ds. cbn. rewrite E. auto.
+  - destruct (String.eqb p0 md_root); discriminate H.
+Qed.
+
+(** ** the state invariant is preserved *)
+
+Lemma tree_ok_add tr p n tr' :
+  tree_ok tr -> stored_ok n -> add tr p n = Some tr' -> tree_ok tr'.
+Proof.
+  intros [Hwf Hok] Hn Ha. destruct (add_spec tr tr' p n Hwf Ha) as [Hwf' Hl].
+  split; [assumption|]. intros q m Hq. rewrite Hl in Hq.
+  destruct (path_eqb q p); [inversion Hq; subst; assumption|eauto].
+Qed.
+
+Lemma tree_ok_tree_set tr p n : tree_ok tr -> stored_ok n -> tree_ok (tree_set tr p n).
+Proof.
+  intros Hok Hn. unfold tree_set. destruct (add tr p n) eqn:E; [eapply tree_ok_add; eauto|assumption].
+Qed.
+
+Lemma tree_ok_delete tr q c : tree_ok tr -> tree_ok (fst (delete_cond tr q c)).
+Proof.
+  intros [Hwf Hok]. destruct (delete_spec tr q c Hwf) as (Hwf' & Hl & _).
+  split; [assumption|]. intros s m Hs. rewrite Hl in Hs. unfold sel in Hs.
+  destruct (lookup tr s) as [v|] eqn:E; [|discriminate].
+  destruct (qmatch q s && c v); [discriminate|]. inversion Hs; subst. eauto.
+Qed.
+
+Lemma gnmi_update1_ok t n :
+  tree_ok (ts_tree t) -> stored_ok n -> tree_ok (ts_tree (fst (gnmi_update1 fl t n))).
+Proof.
+  intros Hok Hn. unfold gnmi_update1.
+  destruct (n_upd n) as [|u us]; [assumption|].
+  destruct (join_path _ _) as [p|e|w]; try assumption.
+  destruct (update_pre fl t p (u_val u)) as [t1 o] eqn:Ep.
+  assert (Ht1 : ts_tree t1 = ts_tree t).
+  { replace t1 with (fst (update_pre fl t p (u_val u))) by now rewrite Ep. apply update_pre_tree. }
+  destruct o as [x|e|w]; cbn [fst]; try (rewrite Ht1; assumption).
+  unfold update_leaf. rewrite Ht1.
+  destruct (get (ts_tree t) p) as [[old|cs]|]; cbn [fst]; try (rewrite Ht1; assumption).
+  - destruct (Z.ltb _ _); cbn [fst]; [rewrite Ht1; assumption|].
+    destruct (_ && _); cbn [fst]; [rewrite Ht1; assumption|].
+    assert (tree_ok (tree_set (ts_tree t) p n)) by now apply tree_ok_tree_set.
+    destruct (n_atomic n); cbn [fst ts_tree]; [assumption|].
+    destruct (n_upd old); cbn [fst ts_tree]; [assumption|].
+    destruct (equal_gen _ _ _); cbn [fst ts_tree]; assumption.
+  - destruct (add (ts_tree t) p n) eqn:Ea; cbn [fst ts_tree]; [|rewrite Ht1; assumption].
+    eapply tree_ok_add; eauto.
+Qed.
+
+Lemma gnmi_remove_ok t n :
+  tree_ok (ts_tree t) -> tree_ok (ts_tree (fst (gnmi_remove fl t n))).
+Proof.
+  intros Hok. unfold gnmi_remove.
+  destruct (n_del n) as [|d ds]; [assumption|].
+  destruct (join_path _ _) as [p|e|w]; try assumption.
+  destruct p as [|p0 [|k r]].
+  - destruct (f_idx fl); cbn [fst ts_tree]; [assumption|now apply tree_ok_delete].
+  - destruct (String.eqb p0 md_root); [destruct (f_idx fl)|]; cbn [fst ts_tree];
+      try assumption; now apply tree_ok_delete.
+  - destruct (String.eqb p0 md_root); cbn [fst ts_tree]; [destruct (String.eqb k md_connect_error)|];
+      cbn [fst ts_tree]; now apply tree_ok_delete.
+Qed.
+
+End IngestProofs.
